@@ -207,7 +207,20 @@ impl Machine {
             spec.value_sat = VALUE;
             spec.push_msat = BASE_CP * 1000;
             spec.outbound = i == 0;
-            w.open(&spec);
+            if i == 1 {
+                // the second channel gets a permanent id different from its initial one (LDK-style)
+                let ci = match w.new_stub(&spec) {
+                    Out::Ok(ci) => ci,
+                    o => panic!("new_stub failed: {}", o.err_msg()),
+                };
+                w.chans[ci].perm_id = Some(lightning_signer::channel::ChannelId::new(b"union/permanent/1"));
+                match w.setup_chan(ci) {
+                    Out::Ok(()) => {}
+                    o => panic!("setup_chan failed: {}", o.err_msg()),
+                }
+            } else {
+                w.open(&spec);
+            }
             st.push(ChState::default());
         }
         // allowlist and approvals used by several requests
